@@ -65,3 +65,69 @@ PROPS["C13"] = {
         {"name": "c13.random", "engine": "rapid", "quick": R(4, 60000), "thorough": R(8, 3000000)},
     ],
 }
+
+PROPS["C17"] = {
+    "binary": "c17_sce",
+    "level": "exploration",
+    "technique": "property-based testing (rapidcheck): token-tagged generated messages over all known extension subsets; leak / partition / recovery oracles on the public, sensitive and combined serialisations",
+    "level_text": ("Generated messages over every subset shape (singletons, pairs, random halves, all) of the 34 known message extensions with unique attributable tokens in every text-bearing value; "
+                   "each case is split exactly as the encrypted send/receive paths do it and judged by three oracles (no sensitive token or non-allow-listed element in the public part; "
+                   "multiset partition public+sensitive==combined; recovery through parse(public)+parseExtensions(sensitive) gives the same getters). Sampling, not proof."),
+    "level_note": "Trusted: harness allow-list of public elements derived from the statement (routing attributes, addresses, hints, stanza/origin ids, MIX user info, EME, carbons private, fallback markers, explicit fallback body); generator covers the extensions compiled into this build (OMEMO element not built). The application-supplied list of unknown extension elements is kept empty (written verbatim in every mode by design).",
+    "rule": ("rapidcheck tape -> QXmppMessage with a subset of 34 extensions (shape: p=1/4 each | singleton | pair | all | p=1/2 each), all strings replaced by unique tokens TOK<n>x<ext>q. "
+             "Non-trivial: at least one sensitive and one public extension present (c17.split), at least one extension (c17.client). Distinct = presence mask."),
+    "assumptions": [
+        "unknown extension elements supplied through setExtensions() are outside the domain (the property quantifies over the known extensions)",
+        "explicit fallback markers and the explicit e2ee fallback body accompany both parts by definition and are excluded from the partition/recovery comparison",
+    ],
+    "subs": [
+        {"name": "c17.split", "engine": "rapid", "quick": R(6, 25000), "thorough": R(16, 1000000)},
+        {"name": "c17.client", "engine": "rapid", "quick": R(2, 10000), "thorough": R(4, 300000)},
+    ],
+}
+
+PROPS["C02"] = {
+    "binary": "c02_parse",
+    "seeds": True,
+    "level": "exploration",
+    "technique": "structure-aware mutation fuzzing: rapidcheck and coverage-guided libFuzzer drive the same choice tape (seed document + DOM-level mutation operators); oracles: sanitizers/asserts, independent well-formedness check, parse/serialise fixpoint, heap-fill differential for uninitialised members",
+    "level_text": ("Every generated element (seed from the repository's tests x 0-5 structural/value mutations, root or descendant) is handed to every registered parser (148 classes) whose own type check admits it and to the parsers without a type check, "
+                   "to QXmppMessage in all three SCE modes, and to a connected client with every bundled manager installed; ASan+UBSan+Q_ASSERT detect crashes/UB, two XML parsers judge well-formedness of all output, one more parse/serialise pass must reproduce the document, "
+                   "and a 0x00/0xFF heap-fill differential exposes uninitialised members. Coverage-guided search plus random search; sampling, not proof; resource bound = per-input timeout/RSS limits."),
+    "level_note": "Trusted: Qt's QDomDocument and QXmlStreamReader as the two well-formedness judges; the codec registry (harness/common/codec_registry.h) applying each class's own type check as the library's dispatch does; gcc trace-pc hashed coverage for libFuzzer. 'Same document' is judged as XML infoset (namespace-resolved, attribute-order free, sibling order kept).",
+    "rule": ("choice tape -> (seed index among the XML documents harvested from /repo/tests, k in 0..5 mutations from {delete/duplicate/swap child, splice foreign subtree, re-namespace, rename, drop/hostile/add attribute, hostile text, empty, nest 2^k deep, replace}, target = root or descendant). "
+             "Non-trivial: at least one mutation applied (the element differs from every seed); distinct = hash of the mutated document + target name. Per-codec acceptance counts are in labels."),
+    "assumptions": [
+        "inputs are well-formed XML elements (the mutator produces them by construction; malformed ones are counted and skipped)",
+        "managers that would open network connections to peer-chosen addresses are configured not to (transfer manager in-band only)",
+        "LeakSanitizer is off (Qt process-lifetime singletons)",
+    ],
+    "subs": [
+        {"name": "c02.parsers", "engine": "rapid", "asan_extra": ":alloc_dealloc_mismatch=0", "quick": R(6, 1200), "thorough": R(8, 400000)},
+        {"name": "c02.parsers", "engine": "fuzz", "asan_extra": ":alloc_dealloc_mismatch=0", "max_len": 1200, "timeout": 30, "len_control": 20, "quick": F(4, 2500), "thorough": F(8, 3000000, max_total_time=1200)},
+        {"name": "c02.message-modes", "engine": "rapid", "asan_extra": ":alloc_dealloc_mismatch=0", "quick": R(2, 1200), "thorough": R(4, 400000)},
+        {"name": "c02.client", "engine": "rapid", "asan_extra": ":alloc_dealloc_mismatch=0", "quick": R(2, 2000), "thorough": R(8, 200000)},
+        {"name": "c02.uninit", "engine": "rapid", "asan_extra": ":alloc_dealloc_mismatch=0", "quick": R(2, 500), "thorough": R(4, 200000)},
+    ],
+}
+
+PROPS["C01"] = {
+    "binary": "c01_codec",
+    "seeds": True,
+    "level": "exploration",
+    "technique": "property-based testing (rapidcheck): object-first round trip with getter comparison and structure lock against a benign twin; document-first round trip and value-substitution (metamorphic) over all registered codecs",
+    "level_text": ("Generated objects (QXmppMessage with any subset of 34 extensions, hard string values) are serialised, re-parsed and compared getter by getter; the element skeleton must not depend on the string values; "
+                   "every document harvested from the repository's tests is put through every registered codec (148 classes) that admits it: the library's own output form must survive another parse/serialise pass up to sibling order, "
+                   "and substituting hard values at value-transparent positions must commute with the codec (correct escaping, same skeleton). Sampling, not proof."),
+    "level_note": "Trusted: the field tables/generators in harness/common/msggen.h (written from the public headers), Qt's XML parsers, the codec registry. Strings are non-blank in the Unicode sense (QChar::isSpace), a literal CR is not generated in text content (XML end-of-line normalisation), U+0000 and other XML-illegal code points never.",
+    "rule": ("c01.message: choice tape -> message (extension subset shape x values from G-str: markup metacharacters, quotes, Latin-1/Greek/CJK/combining/RTL/private-use/astral, attribute values also with TAB/LF/CR); non-trivial = >=1 extension present and >=1 value outside [A-Za-z0-9]; distinct = (presence mask, value classes). "
+             "c01.documents: (seed document or descendant, codec, position, value); non-trivial = value-transparent position exercised with a metacharacter or non-ASCII value; distinct = (document, codec, position, value class)."),
+    "assumptions": [
+        "fields documented as not serialised in the default mode (e2eeFallbackBody, E2EE metadata) are excluded",
+        "XHTML-IM body is generated as well-formed XHTML only (documented raw write) and is exempt from hard values",
+        "sets (reaction emojis) are compared as sets",
+    ],
+    "subs": [
+        {"name": "c01.message", "engine": "rapid", "quick": R(6, 12000), "thorough": R(16, 1500000)},
+    ],
+}
